@@ -1,4 +1,4 @@
-"""C03 — messages reach exactly the addressed sessions, once, with the true sender."""
+"""C03 — tenants (backends) never reach each other."""
 from . import _hub
 
 CONFIG = dict(
@@ -15,7 +15,7 @@ CONFIG = dict(
 )
 
 MANIFEST = dict(
-    text="Lean 4 theorems over the hub model for every op sequence: all listeners of a room/user bus subject and all members of a room belong to the subject's backend (even with coinciding room ids, user ids and Nextcloud session ids), rooms of the same id on two backends are disjoint, a message or control message addressed to a foreign session id is dropped without effect, room-session-id lookups and the reconnect kick are confined to the caller's backend, and (C05_routing) every message is written exactly to addressed sessions, which are all of the sender's backend. The same-backend guards are facts regenerated from the source (removing one breaks a proof). Differential hub run with 2-3 backends and coincidence-biased histories; the judge checks every delivery of every step against the backend of the acting session / API call.",
+    text="Lean 4 theorems over the hub model for every op sequence: all listeners of a room/user bus subject and all members of a room belong to the subject's backend (even with coinciding room ids, user ids and Nextcloud session ids), rooms of the same id on two backends are disjoint, a message or control message addressed to a foreign session id is dropped without effect, room-session-id lookups and the reconnect kick are confined to the caller's backend, and (C05_routing) every message is written exactly to addressed sessions, which are all of the sender's backend. The same-backend guards are facts regenerated from the source (removing one breaks a proof). Differential hub run with 2-3 backends and coincidence-biased histories; half of the histories start with a scripted opening (a virtual session addressed from another backend, the same Nextcloud session id and room name on two backends followed by API calls naming it). The judge checks every delivery of every step against the backend of the acting session / API call, and that no step done on behalf of one backend changes what the server holds for another (sessions with room, permissions and queue, rooms, members, call, listeners, counts).",
     note="Synchronous routing layer: single hub, loopback bus, quiescence between ops; no gRPC peers, MCU or federation. Trusted: Lean kernel, extractor, harness (real websockets, fake Nextcloud backend) and comparison. Output-level isolation is proved for messages/control messages (C05_routing) and at mechanism level (listener sets, lookups) for room events and API calls; the per-step output judgement for those is by the judge on real traces. Clustered delivery (a remote hub cannot check the sender's backend on a bare session subject) is not modelled.",
     technique="Lean 4 proof (routing refinement over the hub model) + differential correspondence",
 )
